@@ -79,12 +79,14 @@ def ndarray2utpm(A):
     # (elements of an object array may be array-valued themselves: the result
     # has the shape of the container followed by the shape of an element)
     eshp = tuple(numpy.shape(proto)) if isinstance(proto, (algopy.UTPM, algopy.Function)) else ()
-    if isinstance(proto, algopy.Function) and isinstance(proto.x, algopy.UTPM):
+    if isinstance(proto, algopy.Function):
         # a traced buffer has to hold every element as well (a complex element
         # after real ones): widen the prototype inside the graph
-        dt = numpy.result_type(*[a.x.data.dtype if isinstance(a, algopy.Function) and isinstance(a.x, algopy.UTPM)
-                                 else numpy.asarray(a.x if isinstance(a, algopy.Function) else a).dtype for a in A])
-        if dt != proto.x.data.dtype:
+        def _dt(a):
+            v = a.x if isinstance(a, algopy.Function) else a
+            return v.data.dtype if isinstance(v, algopy.UTPM) else numpy.asarray(v).dtype
+        dt = numpy.result_type(*[_dt(a) for a in A])
+        if dt != _dt(proto):
             proto = proto * dt.type(1)
     retval = zeros(tuple(shp) + eshp,dtype=proto)
     if isinstance(retval, algopy.UTPM):
